@@ -199,11 +199,19 @@ def encoder_use(ctx, cfg):
     return out
 
 
+def _uncast(t):
+    while isinstance(t, tuple) and t and t[0] == "cast":
+        t = t[1]
+    return t
+
+
 def compile_enc(term, mterm_pred, dterm):
+    dcore = _uncast(dterm)
+
     def subst(t):
         if not isinstance(t, tuple):
             return t
-        if t == dterm:
+        if t == dterm or t == dcore:
             return ("param", 2)
         if t and isinstance(t[0], str) and mterm_pred(t):
             return ("param", 1)
@@ -239,7 +247,8 @@ def rule_encoder_tables(ctx, cfg, r):
                     mt = st[2][1]
             if mt is None:
                 raise termeval.Unsupported("LEN_SYM use not found")
-            pred = lambda t, mt=mt: t == mt
+            mcore = _uncast(mt)     # the token byte itself: its uses may widen it to different integer types
+            pred = lambda t, mt=mt, mcore=mcore: t == mt or t == mcore
             fns[k] = {n: compile_enc(u[n], pred, u["dist_term"]) for n in ("len_sym", "len_extra_val", "len_extra_n", "dist_sym", "dist_extra_val", "dist_extra_n")}
     except termeval.Unsupported as e:
         r.fail(fn, "compile", "cannot evaluate the encoder's symbol computation: %s" % e)
